@@ -34,6 +34,11 @@ CLAIMED["C15"] = dict(
     text="Output order equals input order because the active window is only ever used as a FIFO (push_back/pop_front) and the head is popped only when its own check_ready is true; while the head is pending every other active item is polled before Pending is returned; the refill loop keeps exactly `capacity` items in flight and pushes the item it polled; Pending is never returned without a registered waker (one frozen exception: empty window and source not done, justified by NonZero capacity and checked); validated_seq_join chains validate_record(own index) to every item and keeps the validator alive. Decides queue discipline, not liveness over completion orders.",
     ref="§3 C15")
 
+CLAIMED["C16"] = dict(
+    technique="static analysis: signature/ownership facts from the type-checked program, dominator-based guard polarity with expression-shape extraction (readiness test, total_count formula), who-may-write census of pending_count, ordering of batch removal, verdict dataflow in both arms of the returned future",
+    text="Ready::Yes is constructed only when pending_count == min(records_per_batch, total - first_record_in_batch), after the batch left the deque, and owns the batch (FnOnce validator => validated at most once); the validating caller publishes result.is_ok() of the settled validation on the batch's own channel and returns that result; waiters read the verdict only after changed() settled and return Ok only if it is true; misuse paths (record twice, offset beyond batch, batch already validated, record past total) diverge or return an error before any state update. Decides wiring and guards, not interleavings of concurrent callers.",
+    ref="§3 C16")
+
 NOT_APPLICABLE = {
     "C01": "end-to-end numerical equality of the MPC histogram with a plaintext reference over all inputs/shardings: no clause of it is visible in code shape; static analysis in reach cannot bound it (DESIGN.md §4)",
     "C07": "functional correctness of arithmetic/Boolean circuits over all operand values is numerical; would need symbolic execution of the circuits, a different technique family (DESIGN.md §4)",
